@@ -45,7 +45,7 @@ func checkC04Publication(w *World, r *Report, p *Proto, commit *ssa.Function) {
 
 // checkC04PublicationAs is rule C04.1 (repeated as C07.3: an aborted transaction publishes nothing).
 func checkC04PublicationAs(w *World, r *Report, p *Proto, commit *ssa.Function, id string) {
-	ru := r.Rule(id, "one publication point: the tree pointer is stored only by the constructor (on the Router it just allocated) and by Txn.Commit, there exactly once, dominated by txn.write and txn.rootTxn != nil; no Swap/CompareAndSwap, no plain access", 2)
+	ru := r.Rule(id, "one publication point: the tree pointer is stored only by the constructor (on the Router it just allocated) and by Txn.Commit, there exactly once, dominated by txn.write and txn.rootTxn != nil; no Swap/CompareAndSwap, no plain access", 1)
 	nCommit := 0
 	for _, s := range p.sites(p.Tree) {
 		pos := w.Pos(s.call.Pos())
@@ -105,76 +105,120 @@ type settleState struct {
 	cleared bool
 }
 
+// settleExits runs the settle analysis on fn (whose parameter recvIdx is the transaction) and returns, per exit
+// instruction, the set of abstract states reaching it. Calls of module functions that receive the same transaction are
+// folded in through their own exit states (a refactoring may move "rootTxn = nil; mu.Unlock()" into a helper).
+func (p *Proto) settleExits(fn *ssa.Function, recv ssa.Value, depth int) map[ssa.Instruction]map[settleState]bool {
+	states := map[*ssa.BasicBlock]map[settleState]bool{fn.Blocks[0]: {settleState{}: true}}
+	work := []*ssa.BasicBlock{fn.Blocks[0]}
+	exits := map[ssa.Instruction]map[settleState]bool{}
+	step := func(in ssa.Instruction, sts map[settleState]bool) map[settleState]bool {
+		out := map[settleState]bool{}
+		for st := range sts {
+			switch x := in.(type) {
+			case ssa.CallInstruction:
+				args := callArgs(x)
+				if len(args) > 0 {
+					if _, f, ok := fieldOfAddr(args[0]); ok && f == p.Mu {
+						if obj := calleeObj(x); obj != nil && obj.Name() == "Unlock" && st.unlocks < 2 {
+							st.unlocks++
+						}
+						out[st] = true
+						continue
+					}
+				}
+				if callee := x.Common().StaticCallee(); callee != nil && p.w.InModule(callee) && callee.Blocks != nil && depth < 3 {
+					idx := -1
+					for i, a := range args {
+						if a == recv {
+							idx = i
+						}
+					}
+					if idx >= 0 && idx < len(callee.Params) {
+						sub := p.settleExits(callee, callee.Params[idx], depth+1)
+						merged := false
+						for _, ss := range sub {
+							for e := range ss {
+								n := st
+								n.unlocks = min(2, st.unlocks+e.unlocks)
+								if e.cleared {
+									n.cleared = true
+								}
+								out[n] = true
+								merged = true
+							}
+						}
+						if merged {
+							continue
+						}
+					}
+				}
+			case *ssa.Store:
+				if base, f, ok := fieldOfAddr(x.Addr); ok && f == p.RootTxn && base == recv {
+					st.cleared = isNilConst(x.Val)
+				}
+			}
+			out[st] = true
+		}
+		return out
+	}
+	for len(work) > 0 {
+		b := work[0]
+		work = work[1:]
+		cur := states[b]
+		for _, in := range b.Instrs {
+			switch in.(type) {
+			case *ssa.Return, *ssa.Panic:
+				if exits[in] == nil {
+					exits[in] = map[settleState]bool{}
+				}
+				for st := range cur {
+					exits[in][st] = true
+				}
+			}
+			cur = step(in, cur)
+		}
+		for _, s := range b.Succs {
+			if states[s] == nil {
+				states[s] = map[settleState]bool{}
+			}
+			grew := false
+			for st := range cur {
+				if !states[s][st] {
+					states[s][st] = true
+					grew = true
+				}
+			}
+			if grew {
+				work = append(work, s)
+			}
+		}
+	}
+	return exits
+}
+
 func checkC04Settle(w *World, r *Report, p *Proto, commit, abort *ssa.Function) {
-	ru := r.Rule("C04.2", "settle exactly once: in Commit and Abort every path past the two guards clears rootTxn and unlocks exactly once; every path stopped by a guard does neither; no other function unlocks", 6)
+	ru := r.Rule("C04.2", "settle exactly once: in Commit and Abort every path past the two guards clears rootTxn and unlocks exactly once; every path stopped by a guard does neither; no other function unlocks (a helper called only from them counts as part of them)", 3)
+	onlyFromSettlers := func(caller *ssa.Function, _ ssa.CallInstruction) bool { return caller == commit || caller == abort }
 	for _, s := range p.sites(p.Mu) {
-		if s.name == "Unlock" && s.fn != commit && s.fn != abort {
-			ru.Fail("Unlock in "+FuncName(s.fn), w.Pos(s.call.Pos()), "only Txn.Commit and Txn.Abort release the writer lock", "extra release site")
+		if s.name == "Unlock" && s.fn != commit && s.fn != abort && !holdsAtEveryCall(w, s.fn, onlyFromSettlers, 0) {
+			ru.Fail("Unlock in "+FuncName(s.fn), w.Pos(s.call.Pos()), "only Txn.Commit and Txn.Abort (or helpers private to them) release the writer lock", "extra release site")
 		}
 	}
 	for _, fn := range []*ssa.Function{commit, abort} {
-		// forward path-set dataflow
-		states := map[*ssa.BasicBlock]map[settleState]bool{fn.Blocks[0]: {settleState{}: true}}
-		work := []*ssa.BasicBlock{fn.Blocks[0]}
-		out := map[*ssa.BasicBlock]map[settleState]bool{}
-		for len(work) > 0 {
-			b := work[0]
-			work = work[1:]
-			o := map[settleState]bool{}
-			for st := range states[b] {
-				for _, in := range b.Instrs {
-					switch x := in.(type) {
-					case ssa.CallInstruction:
-						args := callArgs(x)
-						if len(args) > 0 {
-							if _, f, ok := fieldOfAddr(args[0]); ok && f == p.Mu {
-								if obj := calleeObj(x); obj != nil && obj.Name() == "Unlock" && st.unlocks < 2 {
-									st.unlocks++
-								}
-							}
-						}
-					case *ssa.Store:
-						if base, f, ok := fieldOfAddr(x.Addr); ok && f == p.RootTxn && base == ssa.Value(fn.Params[0]) {
-							st.cleared = isNilConst(x.Val)
-						}
-					}
-				}
-				o[st] = true
-			}
-			out[b] = o
-			for _, s := range b.Succs {
-				if states[s] == nil {
-					states[s] = map[settleState]bool{}
-				}
-				grew := false
-				for st := range o {
-					if !states[s][st] {
-						states[s][st] = true
-						grew = true
-					}
-				}
-				if grew {
-					work = append(work, s)
-				}
-			}
+		exits := p.settleExits(fn, fn.Params[0], 0)
+		var ins []ssa.Instruction
+		for in := range exits {
+			ins = append(ins, in)
 		}
-		nret := 0
-		for _, b := range fn.Blocks {
-			if len(b.Instrs) == 0 {
-				continue
-			}
-			last := b.Instrs[len(b.Instrs)-1]
-			if _, ok := last.(*ssa.Return); !ok {
-				if _, isPanic := last.(*ssa.Panic); !isPanic {
-					continue
-				}
-			}
-			nret++
+		sort.Slice(ins, func(i, j int) bool { return instrLess(ins[i], ins[j]) })
+		for _, last := range ins {
+			b := last.Block()
 			wr, live := p.txnGuardFacts(fn, b)
 			guardExit := !(wr && live)
 			var got []string
 			ok := true
-			for st := range out[b] {
+			for st := range exits[last] {
 				got = append(got, fmt.Sprintf("{unlocks:%d cleared:%v}", st.unlocks, st.cleared))
 				if guardExit {
 					if st.unlocks != 0 {
@@ -191,8 +235,18 @@ func checkC04Settle(w *World, r *Report, p *Proto, commit, abort *ssa.Function) 
 			}
 			ru.Check("exit of "+FuncName(fn), w.InstrPos(last), kind, ok, strings.Join(got, " "))
 		}
-		if nret < 3 {
-			ru.Fail("exits of "+FuncName(fn), w.Pos(fn.Pos()), "two guard exits and one settling exit", fmt.Sprintf("only %d exits found", nret))
+		// at least one settling exit and one guard exit must exist
+		nSettle, nGuard := 0, 0
+		for _, last := range ins {
+			wr, live := p.txnGuardFacts(fn, last.Block())
+			if wr && live {
+				nSettle++
+			} else {
+				nGuard++
+			}
+		}
+		if nSettle < 1 || nGuard < 1 {
+			ru.Fail("exits of "+FuncName(fn), w.Pos(fn.Pos()), "a guarded early exit and a settling exit", fmt.Sprintf("%d guard exit(s), %d settling exit(s)", nGuard, nSettle))
 		}
 	}
 }
@@ -282,7 +336,7 @@ func checkC04Managed(w *World, r *Report, p *Proto) { checkC04ManagedAs(w, r, p,
 
 // checkC04ManagedAs is rule C04.3; C15 repeats it as C15.3 ("the writer lock is released after a panic").
 func checkC04ManagedAs(w *World, r *Report, p *Proto, id string) {
-	ru := r.Rule(id, "every transaction opened for writing (or with a non-constant mode) by a function that does not hand it to its caller is aborted on every exit, panics included: a defer whose body calls Abort on all its paths is registered immediately after opening, with nothing in between that can panic", 6)
+	ru := r.Rule(id, "every transaction opened for writing (or with a non-constant mode) by a function that does not hand it to its caller is aborted on every exit, panics included: a defer whose body calls Abort on all its paths is registered immediately after opening, with nothing in between that can panic", 3)
 	ru.Idiom("defer txn.Abort()", "defer func(){ if p := recover(); p != nil { txn.Abort(); panic(p) }; txn.Abort() }()")
 	for _, fn := range w.FoxFuncs() {
 		if isTestHelper(w, fn) {
@@ -391,7 +445,7 @@ func checkC04CommitOnSuccess(w *World, r *Report, p *Proto) {
 
 // checkC04CommitOnSuccessAs is rule C04.4 (repeated as C02.5).
 func checkC04CommitOnSuccessAs(w *World, r *Report, p *Proto, id string) {
-	ru := r.Rule(id, "commit only on success: in every Router function that opens a transaction and calls Commit, the Commit call is control-dependent on the nil-error outcome of the operation performed on that transaction", 6)
+	ru := r.Rule(id, "commit only on success: in every Router function that opens a transaction and calls Commit, the Commit call is control-dependent on the nil-error outcome of the operation performed on that transaction", 3)
 	for _, fn := range w.FoxFuncs() {
 		opens := false
 		eachInstr(fn, func(in ssa.Instruction) {
@@ -448,7 +502,7 @@ func isErrorType(t types.Type) bool {
 // ---- C04.5 ------------------------------------------------------------------------------------------------
 
 func checkC04Guards(w *World, r *Report, p *Proto) {
-	ru := r.Rule("C04.5", "guards: every method of Txn except Commit, Abort and Snapshot tests rootTxn == nil and panics with ErrSettledTxn before any use of rootTxn; every method that calls a mutator of the inner transaction returns ErrReadOnlyTxn unless txn.write, before the call", 12)
+	ru := r.Rule("C04.5", "guards: every method of Txn except Commit, Abort and Snapshot tests rootTxn == nil and panics with ErrSettledTxn before any use of rootTxn; every method that calls a mutator of the inner transaction returns ErrReadOnlyTxn unless txn.write, before the call", 6)
 	mutators := map[string]bool{"insert": true, "update": true, "remove": true, "truncate": true}
 	for _, fn := range w.MethodsOf("Txn") {
 		name := fn.Name()
@@ -496,6 +550,15 @@ func checkC04Guards(w *World, r *Report, p *Proto) {
 			}
 		}
 		if guard == nil {
+			// an unexported helper is covered when every call of it comes after its caller established rootTxn != nil
+			callerGuarded := func(caller *ssa.Function, site ssa.CallInstruction) bool {
+				_, live := p.txnGuardFacts(caller, site.Block())
+				return live && len(callArgs(site)) > 0 && callArgs(site)[0] == ssa.Value(caller.Params[0])
+			}
+			if holdsAtEveryCall(w, fn, callerGuarded, 0) {
+				ru.Pass("settled guard of Txn."+name, w.Pos(fn.Pos()), "unexported helper: every call site is dominated by its caller's rootTxn != nil test", "guarded by its callers")
+				continue
+			}
 			ru.Fail("settled guard of Txn."+name, w.Pos(fn.Pos()), "rootTxn == nil is tested (panic ErrSettledTxn) before rootTxn is used", "no such guard found")
 			continue
 		}
@@ -580,7 +643,7 @@ func (p *Proto) readOnlyBranchReturnsErr(fn *ssa.Function) (bool, string) {
 // ---- C04.6 ------------------------------------------------------------------------------------------------
 
 func checkC04Isolation(w *World, r *Report, p *Proto) {
-	ru := r.Rule("C04.6", "isolation of uncommitted state: no function reachable from the inner transaction's methods loads or stores the published pointer, and tXn fields are stored only by tXn's own methods and constructors", 8)
+	ru := r.Rule("C04.6", "isolation of uncommitted state: no function reachable from the inner transaction's methods loads or stores the published pointer, and tXn fields are stored only by tXn's own methods and constructors", 4)
 	cg := w.CHA()
 	var entries []*ssa.Function
 	for _, fn := range w.MethodsOf(p.InnerTxn.Obj().Name()) {
